@@ -396,12 +396,21 @@ type presetSource struct {
 	seed uint64
 	free *gen.Params
 	adv  *gen.Params
+	// thorough tier: every third world is drawn with deeper bounds
+	largeFree *gen.Params
+	largeAdv  *gen.Params
 }
 
 func (s *presetSource) world(i int) *check.World {
 	p := s.free
 	if i%5 >= 3 {
 		p = s.adv
+	}
+	if s.largeFree != nil && i%3 == 2 {
+		p = s.largeFree
+		if i%5 >= 3 {
+			p = s.largeAdv
+		}
 	}
 	w := gen.World(scen.Mix(s.seed, hashProp(s.prop)), i, p)
 	if s.prop == "C12" {
@@ -417,7 +426,11 @@ func (s *presetSource) world(i int) *check.World {
 }
 func (s *presetSource) exhaustive() bool { return false }
 func (s *presetSource) describe() string {
-	return "worlds drawn by internal/gen from splitmix(VERIF_SEED, property, index): 3 of 5 with the trigger-free generator configuration, 2 of 5 adversarial (known-finding triggers allowed)"
+	d := "worlds drawn by internal/gen from splitmix(VERIF_SEED, property, index): 3 of 5 with the trigger-free generator configuration, 2 of 5 adversarial (known-finding triggers allowed)"
+	if s.largeFree != nil {
+		d += "; every third world with deeper bounds (up to 12 tests, twice the calls per test, one more nesting level, 5 Configs, -count up to 5, more lifetimes)"
+	}
+	return d
 }
 
 func hashProp(p string) uint64 {
@@ -454,9 +467,17 @@ func newSource(prop string, seed uint64, tier string) source {
 	switch prop {
 	case "C05":
 		// the whole table first, then random histories under all environments and Update options
-		return &tableSource{seed: seed, extra: &presetSource{prop: prop, seed: seed, free: gen.Preset(prop, false, nil), adv: gen.Preset(prop, true, nil)}}
+		ps := &presetSource{prop: prop, seed: seed, free: gen.Preset(prop, false, nil), adv: gen.Preset(prop, true, nil)}
+		if tier == "thorough" {
+			ps.largeFree, ps.largeAdv = gen.Enlarge(ps.free), gen.Enlarge(ps.adv)
+		}
+		return &tableSource{seed: seed, extra: ps}
 	case "C01", "C02", "C03", "C04", "C06", "C07", "C08", "C09", "C10", "C17", "C19", "C20", "C12":
-		return &presetSource{prop: prop, seed: seed, free: gen.Preset(prop, false, nil), adv: gen.Preset(prop, true, nil)}
+		ps := &presetSource{prop: prop, seed: seed, free: gen.Preset(prop, false, nil), adv: gen.Preset(prop, true, nil)}
+		if tier == "thorough" {
+			ps.largeFree, ps.largeAdv = gen.Enlarge(ps.free), gen.Enlarge(ps.adv)
+		}
+		return ps
 	}
 	return nil
 }
